@@ -64,6 +64,8 @@ func boolInput(id run.CaseID) (subj, clp Paths) {
 		subj, clp, _ = gen.Rectilinear(r)
 	case "rect-soup":
 		subj, clp = gen.RectSoup(r)
+	case "rect-cavity":
+		subj, clp = gen.RectCavity(r)
 	case "nested", "nested-small", "nested-large":
 		R := gen.PickOf(r, 500.0, 20000.0, 3.0e6, 2.0e8)
 		if id.Family == "nested-large" { // magnitudes at which two unrelated rings practically never come within the rounding band of each other
